@@ -402,6 +402,12 @@ def do_apply(ctx, rng, i):
         probe['eps'] = []
         try:
             err = H.apply(psi, opts)
+        except RuntimeError as e:
+            if method == 'zip_up' and chi_max < 100 and 'no singular values' in str(e):
+                # the zip-up sweep kept so few states (m_temp * chi_max) that nothing of the next tensor survived: a loud refusal
+                ctx.count('apply.zip_up_overtruncated')
+                raise _Skip()
+            raise
         finally:
             performed, probe['eps'] = probe['eps'], None
         eps = float(getattr(err, 'eps', 0.0))
